@@ -234,13 +234,10 @@ def handle (d : D) : List String → D × String
   | ["q", "effdl", t] =>
     match t.toNat?.bind (look d.tasks) with
     | some u =>
-      match (d.st.tasks u).scope with
-      | none => (d, "inf")
-      | some s =>
-        match effDeadlineGo (d.st.nScopes + 1) d.st (some s) none with
-        | none => (d, "-inf")
-        | some none => (d, "inf")
-        | some (some v) => (d, toString v)
+      match effDeadline d.st u with
+      | .negInf => (d, "-inf")
+      | .inf => (d, "inf")
+      | .at v => (d, toString v)
     | none => (d, "UNKNOWN")
   | _ => (d, "bad-op")
 where
